@@ -3,6 +3,8 @@
     pmdriver model <script-file>      run the model on a script file, print the transcript (PROTOCOL.md §2)
 -/
 import PosterModel.Script
+import PosterModel.Spec.Client
+import PosterModel.Spec.Server
 
 open Poster Poster.Script
 
@@ -56,12 +58,90 @@ partial def processLines (h : IO.FS.Stream) (cur : Option (String × Array Strin
       processLines h none
     else processLines h (some (name, acc.push l))
 
+/-! ### specification-side modes: the Lean spec judges bytes / generates inputs -/
+
+/-- `parsew`: one hex packet per line; is it exactly one well-formed client packet for `Spec.parseClient`? -/
+def parsewLine (l : String) : String :=
+  match ofHex l with
+  | none => "badhex"
+  | some bs =>
+    match Spec.parseClient bs with
+    | some (_, []) => "ok"
+    | some (_, _) => "trailing"
+    | none => "bad"
+
+def pProp1 (s : String) : Option Property :=
+  match s.splitOn ":" with
+  | [i, "b", v] => do let id ← i.toNat?; let b ← pBool v; pure ⟨id, .bool b⟩
+  | [i, "n", v] => do let id ← i.toNat?; let n ← v.toNat?; pure ⟨id, .num n⟩
+  | [i, "v", v] => do let id ← i.toNat?; let n ← v.toNat?; pure ⟨id, .var n (Spec.sVar n).length⟩
+  | [i, "s", v] => do let id ← i.toNat?; let b ← ofHex v; pure ⟨id, .bytes b⟩
+  | [i, "p", v] =>
+    match v.splitOn "~" with
+    | [k, w] => do let id ← i.toNat?; let a ← ofHex k; let b ← ofHex w; pure ⟨id, .pair a b⟩
+    | _ => none
+  | _ => none
+
+def pProps (s : String) : Option (List Property) :=
+  if s = "-" then some [] else (s.splitOn ",").mapM pProp1
+
+def ofHexD (s : String) : Option Bytes := if s = "-" then some [] else ofHex s
+
+def pAckForm : String → Option Spec.AckForm
+  | "full" => some .full | "reason" => some .reasonOnly | "id" => some .idOnly | _ => none
+
+/-- `encserver`: a server packet description per line → `<wf 0|1> <hex of Spec.encodeServer>` -/
+def encserverLine (l : String) : String :=
+  let r : Option Spec.ServerPacket :=
+    match l.splitOn " " with
+    | ["connack", f, r, ps] => do pure (.connack (← f.toNat?) (← r.toNat?) (← pProps ps))
+    | ["publish", d, q, rt, t, pid, ps, pl] => do
+      let pid' ← if pid = "-" then some none else pid.toNat?.map some
+      pure (.publish (← pBool d) (← q.toNat?) (← pBool rt) (← ofHexD t) pid' (← pProps ps) (← ofHexD pl))
+    | [k, f, pid, r, ps] => do
+      let form ← pAckForm f
+      let pid ← pid.toNat?; let r ← r.toNat?; let ps ← pProps ps
+      match k with
+      | "puback" => some (.puback form pid r ps) | "pubrec" => some (.pubrec form pid r ps)
+      | "pubrel" => some (.pubrel form pid r ps) | "pubcomp" => some (.pubcomp form pid r ps)
+      | _ => none
+    | ["pingresp"] => some .pingresp
+    | ["disconnect", f, r, ps] => do
+      let form ← match f with | "full" => some Spec.DiscForm.full | "reason" => some .reasonOnly | "empty" => some .empty | _ => none
+      pure (.disconnect form (← r.toNat?) (← pProps ps))
+    | ["auth", f, r, ps] => do
+      let form ← match f with | "full" => some Spec.AuthForm.full | "empty" => some .empty | _ => none
+      pure (.auth form (← r.toNat?) (← pProps ps))
+    | [k, pid, ps, rs] => do
+      let pid ← pid.toNat?; let ps ← pProps ps; let rs ← ofHexD rs
+      match k with
+      | "suback" => some (.suback pid ps (rs.map (·.toNat))) | "unsuback" => some (.unsuback pid ps (rs.map (·.toNat)))
+      | _ => none
+    | _ => none
+  match r with
+  | none => "baddesc"
+  | some p => s!"{if Spec.wf p then 1 else 0} {toHex (Spec.encodeServer p)}"
+
+partial def mapLines (h : IO.FS.Stream) (f : String → String) : IO Unit := do
+  let line ← h.getLine
+  if line.isEmpty then return ()
+  IO.println (f line.trimAscii.toString)
+  mapLines h f
+
 def main (args : List String) : IO UInt32 := do
   match args with
+  | ["parsew", file] =>
+    let h ← IO.FS.Handle.mk file .read
+    mapLines (IO.FS.Stream.ofHandle h) parsewLine
+    return 0
+  | ["encserver", file] =>
+    let h ← IO.FS.Handle.mk file .read
+    mapLines (IO.FS.Stream.ofHandle h) encserverLine
+    return 0
   | ["model", file] =>
     let h ← IO.FS.Handle.mk file .read
     processLines (IO.FS.Stream.ofHandle h) none
     return 0
   | _ =>
-    IO.eprintln "usage: pmdriver model <script-file>"
+    IO.eprintln "usage: pmdriver model <script-file> | parsew <hex-file> | encserver <desc-file>"
     return 2
